@@ -38,6 +38,27 @@ def prebuilt(kind):
             d = DiskFile()
             d.add_file(_cf("OLD", 20))
             _CACHE[kind] = d.get_buffer()
+        elif kind == "dsk-empty":
+            _CACHE[kind] = DiskFile().get_buffer()           # formatted, no files
+        elif kind == "dsk-killed":
+            # every directory entry deleted (first byte $00), allocation table all free: written by the independent writer
+            _CACHE[kind] = OD.write_image([], [], deleted=[0, 1, 2])
+        elif kind == "dsk-hibyte":
+            # a well-formed disk whose one file name holds a Disk BASIC graphics character (byte >= $80)
+            b = OD.write_image([{"name": "GAMEX", "ext": "BIN", "ftype": 2, "dtype": 0, "load": 0x3000, "exec": 0x3000,
+                                 "data": [1, 2, 3, 4]}], [[5]])
+            b[OD.DIR + 4] = 0x8F
+            _CACHE[kind] = b
+        elif kind == "dsk-foreign":
+            b = OD.write_image([{"name": "ONE", "ext": "BIN", "ftype": 2, "dtype": 0, "load": 0x3000, "exec": 0x3000, "data": [7] * 3000},
+                                {"name": "TWO", "ext": "BAS", "ftype": 0, "dtype": 0, "load": 0, "exec": 0, "data": [9] * 40}],
+                               [[40, 3], [66]], slots=[2, 70], deleted=[0, 1])
+            _CACHE[kind] = b
+        elif kind == "cas-foreign":
+            # written by the independent writer: gapped blocks, lower-case name, short leaders
+            _CACHE[kind] = OC.write([{"name": "Hello", "ftype": 2, "dtype": 0, "load": 0x3000, "exec": 0x3000, "data": [5] * 300},
+                                     {"name": "TXT", "ftype": 1, "dtype": 0xFF, "load": 0, "exec": 0, "data": [65] * 20}],
+                                    leader=16, blank=2, gaps=False)
         elif kind == "raw":
             _CACHE[kind] = [0x86, 0x12, 0x39, 0x00, 0x55, 0x3C, 0x01, 0x02, 0xFF, 0x00] * 3
         elif kind == "rawhdr":
@@ -120,8 +141,8 @@ def make(sid, front, switch, append, pre, nsym=0, twice=False):
             before = prebuilt(pre)
         if before is not None:
             fsinit[target] = before[:]
-        pre_is_cas = pre in ("cas", "bigcas", "bigcas7f", "bigcasff")
-        pre_is_dsk = pre == "dsk"
+        pre_is_cas = pre in ("cas", "bigcas", "bigcas7f", "bigcasff", "cas-foreign")
+        pre_is_dsk = pre.startswith("dsk")
         with MemFS(fsinit) as fs:
             runs = []
             for _ in range(2 if twice else 1):
@@ -158,8 +179,10 @@ def make(sid, front, switch, append, pre, nsym=0, twice=False):
                     fault = "written disk image malformed"
                 elif switch == "to_cas" and pre_is_cas and len(OC.parse(after)) != len(OC.parse(before)) + (2 if twice else 1):
                     fault = "appended cassette does not hold old + new files"
-            elif may_modify and not changed and before is not None and not either:
-                fault = "append applies but nothing was written"
+            elif may_modify and not changed and before is not None and not either and r.out.strip() == "":
+                # (a refusal that is explained and leaves the target untouched is within the statement: the target may
+                # change ONLY when append applies - whether an append that applies must succeed is C09's subject)
+                fault = "append applies but nothing was written and nothing was said"
         info["fault"] = fault
         if fault is None:
             return True, info
@@ -167,7 +190,7 @@ def make(sid, front, switch, append, pre, nsym=0, twice=False):
         return ctx.known(PID, {"part": "matrix"}, env), info
     ob = Ob("C10:%s:%s:%s:%s%s%s" % (front, switch, "append" if append else "plain", pre, nsym or "", ":twice" if twice else ""), body,
             timeout=300, tags={"part": "matrix"}, text="%s --%s %s onto %s%s" % (front, switch, "--append" if append else "", pre, nsym or ""), r4=(pre == "sym"))
-    if pre in ("bigcas", "bigcas7f", "bigcasff", "dsk"):
+    if pre in ("bigcas", "bigcas7f", "bigcasff") or pre.startswith("dsk"):
         ob.native_only = True       # concrete scenario; scanning a 160-185 KB image under tracing is too slow
     return ob
 
@@ -194,6 +217,10 @@ def obligations(tier, seed):
             for ap in (False, True):
                 obs.append(make(None, front, sw, ap, "rawhdr"))
         obs.append(make(None, front, "to_bin", False, "rawhdr", twice=True))
+        for pre in ("dsk-empty", "dsk-killed", "dsk-hibyte", "dsk-foreign", "cas-foreign"):
+            for sw in ("to_bin", "to_cas", "to_dsk"):
+                for ap in ((False, True) if full or sw != "to_dsk" else (True,)):
+                    obs.append(make(None, front, sw, ap, pre))
     return obs
 
 
